@@ -26,3 +26,5 @@ def run(ctx):
     MP.stream_invariant(ctx, "C07.R3")
     BR.error_injection(ctx, "C07.R4")
     BR.layers_transparent(ctx, "C07.R5")
+    # a part's stream stays installed until it has reported its end: only then is the verdict (short / long / error) known
+    MP.stream_frame(ctx, "C07.R3.frame")
